@@ -86,6 +86,7 @@ Section B.
 
   Hypothesis HGwf : forall o, G o = true -> wf_op o = true.
   Hypothesis HGr : G Reopen = true.
+  Hypothesis HGf : G Flush = true.
 
   Lemma batched_sim : sim G pers (batched l P) (batched_rel l R).
   Proof.
@@ -112,11 +113,17 @@ Section B.
       destruct (benqueue_rel s a (k, 0, []) Hrel eq_refl Hk) as [H1 H2]. cbn [fst snd]. auto.
     - (* Batch *) cbn [spec_step]. destruct (is_nil b || has_empty_key (map bop_key b)) eqn:E; [cbn; auto|].
       apply orb_false_elim in E as [_ E2]. cbn [fst snd]. apply benqueue_all_rel; assumption.
-    - (* Flush *) destruct (bflush_rel s a Hrel) as [H1 [_ [H3 _]]]. cbn. auto.
+    - (* Flush *) destruct (bflush_rel s a Hrel) as [H1 [H2 [H3 H4]]].
+      destruct (bflush P s) as [s1 y]. cbn [fst snd] in *. subst y. cbn [is_done].
+      pose proof (HP (fst s1) a Flush Ho H4) as [H5 H6].
+      destruct (step P (fst s1) Flush) as [m2 r]. cbn [fst snd spec_step] in *. subst r. cbn. split; [|reflexivity].
+      exists a. cbn [fst snd]. rewrite H2. split; [assumption|]. split; [reflexivity|split; reflexivity].
     - (* Reopen *) destruct (bflush_rel s a Hrel) as [H1 [H2 [H3 H4]]].
       destruct (bflush P s) as [s1 y]. cbn [fst snd] in *. subst y. cbn [is_done].
-      pose proof (HP (fst s1) a Reopen HGr H4) as [H5 H6].
-      destruct (step P (fst s1) Reopen) as [m2 r]. cbn [fst snd] in *. subst r. cbn. split; [|reflexivity].
+      pose proof (HP (fst s1) a Flush HGf H4) as [H5 H6].
+      destruct (step P (fst s1) Flush) as [m2 r]. cbn [fst snd spec_step] in *. subst r. cbn [is_done].
+      pose proof (HP m2 a Reopen HGr H5) as [H7 H8].
+      destruct (step P m2 Reopen) as [m3 r3]. cbn [fst snd spec_step] in *. subst r3. cbn. split; [|reflexivity].
       exists (if pers then a else []). cbn [fst snd]. split; [assumption|]. split; [reflexivity|split; reflexivity].
   Qed.
 End B.
